@@ -261,6 +261,7 @@ def c14(tier):
         run_s2c(rep, "MC_SMT", smt_cfg(depth=16, keys="K16", ops=16, trunc="TFull16", emit="INVARIANT EmitSt"), R,
                 simulate=dict(num=2400, depth=16))
     need(rep, ["non-blank-default", "blank-value-written", "absent-key", "calls:calc_root"])
+    smt_traces(rep, tier, {"C14"})
     return rep.finish()
 
 
@@ -286,6 +287,7 @@ def c15(tier):
         run_s2c(rep, "MC_SMT", smt_cfg(depth=16, keys="K16", ops=16, trunc="T16few", emit="INVARIANT EmitSt"), R,
                 simulate=dict(num=2400, depth=16))
     need(rep, ["proof-tracked", "truncated-list-refused", "calls:proof.update"])
+    smt_traces(rep, tier, {"C15"})
     return rep.finish()
 
 
@@ -420,3 +422,35 @@ def c18(tier):
 
 
 CHECKS["C18"] = c18
+
+
+def smt_traces(rep, tier, owners):
+    """code -> spec for C14 / C15: generated histories of the real tree and proof, key sizes 1..32"""
+    import random
+
+    from . import smt_driver as sd
+    from .common import import_repo, seed
+
+    mod = import_repo()
+    rng = random.Random(seed() * 131 + 7)
+    # (the JSON reader of TLC's Json module refuses nesting deeper than 255: the decoded tree of a
+    # 31- or 32-byte key does not fit; those sizes are covered by the depth-256 spec->code runs)
+    sizes = [1, 2, 7, 8, 20, 30] if tier == "quick" else [1, 2, 3, 5, 7, 8, 9, 13, 16, 20, 24, 28, 30]
+    per = 12 if tier == "quick" else 150
+    counts = {}
+    from concurrent.futures import ThreadPoolExecutor
+
+    batches = {ks: [t for t in (sd.gen_trace(mod, rng, ks) for _ in range(per)) if t["ev"]] for ks in sizes}
+
+    def one(ks):
+        pipeline.code_to_spec(rep, "Trace_SMT", "Trace_SMT.cfg", batches[ks], consts=("TraceConsts_SMT", sd.consts),
+                              owners=owners, batches=1 if tier == "quick" else 4, heap="3g")
+    with ThreadPoolExecutor(6) as ex:
+        list(ex.map(one, sizes))
+    for traces in batches.values():
+        for t in traces:
+            for e in t["ev"]:
+                key = e["a"] + ("!refused" if e["refused"] else "")
+                counts[key] = counts.get(key, 0) + 1
+    rep.cov.setdefault("trace_event_counts", {}).update(counts)
+    rep.cov["trace_key_sizes"] = sizes
